@@ -641,7 +641,7 @@ def fixed_cases():
                                (11, 1, 0, 1, 1, []), (11, 2, 1, -1, 0, [1]), (11, 3, 2, 7, 1, [-2]), E], opts_list=((1, 1, 1), (1, 1, 0)))
     add('fixed-edges', [B, (4, 1, [1, 2], []), (12, 0, 1, [1]), (12, 1, 0, [1]), (12, 7, 7, []), (12, -1, INT_MIN, [1, -2]), (12, INT_MAX, 0, [-1]), E])
     add('fixed-externals', [B, (9, 1, 0), (9, 2, 1), (9, 3, 2), (9, 4, 3), (4, 0, [5], [1, -2]), (9, 5, 1), (9, 1, 2), E])
-    add('fixed-external-first-not-incremental', [B, (9, 1, 1), (11, 1, 0, 1, 1, []), E, B, (12, 1, 2, [1]), (8, b'a', [1]), E],
+    add('fixed-external-first-not-incremental', [B, (9, 1, 1), (11, 1, 0, 1, 1, [1]), E, B, (12, 1, 2, [1]), (8, b'a', [1]), E],
         opts_list=((1, 1, 1), (1, 1, 0)))
     add('fixed-later-step', [B, (4, 1, [1, 2], []), (11, 1, 0, 1, 1, [2]), (12, 5, 6, [1]), E, B, (8, b'a', [1]), (11, 1, 1, 2, 0, []), (12, 6, 9, [2]), E,
                              B, (11, 1, 2, 3, 1, [1]), (11, 2, 2, 3, 1, [1]), E], inc=True, opts_list=((1, 1, 1), (1, 1, 0), (0, 1, 0)))
